@@ -6,7 +6,7 @@
 //!         "script": [ev ..]}
 //! ev   = ["client", prog] | ["host", [prog ..]]      (registered as n0, n1, .. in script order;
 //!                                                      a host uses progs[min(incarnation, len-1)])
-//!      | ["step"] | ["run"] | ["crash", sel] | ["bounce", sel] | ["probe"]
+//!      | ["step"] | ["run"] | ["crash", sel] | ["bounce", sel] | ["probe"] | ["wall_sleep", ms]
 //! sel  = {"h": i} | {"ip": i} | {"re": "regex"}
 //! prog = {"main": [op ..], "end": "ok"|"err"|"err_io"|"err_cancelled"|"err_joinpanic"|"panic"|"never",
 //!         (err: a string error; err_io: an io::Error; err_cancelled: the JoinError of a worker task
@@ -39,6 +39,9 @@ struct Shared {
     starts: RefCell<Vec<u64>>,
     /// per host: guards alive
     alive: RefCell<Vec<i64>>,
+    /// clock reads made by the software factory closure of a host on every (re)start:
+    /// [host, incarnation, event index, sim_elapsed, since_epoch]
+    factory: RefCell<Vec<Value>>,
     /// [host, incarnation, task, event index at which the destructor ran,
     ///  sim_elapsed() and since_epoch() as read by the destructor]
     drops: RefCell<Vec<Value>>,
@@ -260,6 +263,10 @@ fn run_case(case: &Value) -> Value {
                             s[h] += 1;
                             s[h] - 1
                         };
+                        // the factory closure reads the clocks (None at registration: no current host yet)
+                        let se = turmoil::sim_elapsed().map(|d| d.as_nanos() as u64);
+                        let ep = turmoil::since_epoch().map(|d| d.as_nanos() as u64);
+                        sh2.factory.borrow_mut().push(json!([h, inc, sh2.cur_ev.get(), se, ep]));
                         let p = progs[(inc as usize).min(progs.len() - 1)].clone();
                         software(sh2.clone(), h, inc, p, tick)
                     });
@@ -315,6 +322,11 @@ fn run_case(case: &Value) -> Value {
                     }
                 }
             }
+            "wall_sleep" => {
+                // real time passes (nothing virtual does): makes a wall-clock leak visible
+                std::thread::sleep(Duration::from_millis(ev[1].as_u64().unwrap()));
+                json!({"k": "wall_sleep"})
+            }
             "probe" => {
                 let running: Vec<bool> = (0..ips.len()).map(|h| sim.is_host_running(ips[h])).collect();
                 json!({"k": "probe",
@@ -335,6 +347,7 @@ fn run_case(case: &Value) -> Value {
         "evs": evs,
         "log": *sh.log.borrow(),
         "drops": *sh.drops.borrow(),
+        "factory": *sh.factory.borrow(),
         "epoch_ns": epoch_ns,
         "panic": Value::Null,
     });
